@@ -2,6 +2,8 @@ package rules
 
 import (
 	"fmt"
+	"go/token"
+	"go/types"
 	"strings"
 
 	"gojaverif/core"
@@ -454,3 +456,159 @@ var MapKeyCanon = &core.Rule{Name: "R-MAPKEYCANON", Run: func(p *core.Prog) *cor
 	}
 	return res
 }, Doc: "objectGoMapReflect.strToKey rejects names that are not the canonical string of a number before converting them to a numeric key"}
+
+// R-TRAPONCE (C11): "a forwarding Proxy equals its target" needs every trapped operation to be performed
+// once - by the trap - and its (validated) answer to be what the caller gets.
+//
+// (a) In every method of *proxyObject that consults a handler trap (a call of a proxyHandler interface
+// method whose last result is `ok bool`), no return reachable from the ok-true edge returns the result of
+// the same-named operation invoked on the target: that is the fallback for an absent trap. Falling
+// through to it after the trap has answered runs the target's own operation a second time (with layered
+// proxies the inner trap runs 2^(n-1) times and a non-idempotent inner trap changes the outcome).
+//
+// (b) The object a trap returns as a descriptor is read by one conversion only: no function passes the
+// same value to both toPropertyDescriptor and toValueProp (each reads the object's properties and runs its
+// getters; the invariants were checked on the first reading, the answer was built from the second).
+var TrapOnce = &core.Rule{Name: "R-TRAPONCE", Run: func(p *core.Prog) *core.Result {
+	res := core.NewResult("R-TRAPONCE", 28)
+	pt, err := p.GojaType("proxyObject")
+	if err != nil {
+		return res.Fail(err)
+	}
+	ht, err := p.GojaType("proxyHandler")
+	if err != nil {
+		return res.Fail(err)
+	}
+	nTrap := 0
+	for _, f := range p.Funcs {
+		if !p.InModule(f) || f.Signature.Recv() == nil || f.Synthetic != "" {
+			continue
+		}
+		rp, ok := f.Signature.Recv().Type().(*types.Pointer)
+		if !ok || !types.Identical(rp.Elem(), pt) {
+			continue
+		}
+		for _, b := range f.Blocks {
+			c := ifCond(b)
+			ex, ok := c.(*ssa.Extract)
+			if !ok {
+				continue
+			}
+			call, ok := ex.Tuple.(*ssa.Call)
+			if !ok || !call.Call.IsInvoke() || !types.Identical(call.Call.Value.Type(), ht) {
+				continue
+			}
+			if ex.Index != call.Type().(*types.Tuple).Len()-1 {
+				continue
+			}
+			nTrap++
+			key := fmt.Sprintf("%s:the answer of trap %s is not replaced by the target's own operation", core.FuncName(f), call.Call.Method.Name())
+			bad := ""
+			var badPos token.Pos
+			for _, b2 := range f.Blocks {
+				if !core.Reaches(b.Succs[0], b2) {
+					continue
+				}
+				ret, ok := b2.Instrs[len(b2.Instrs)-1].(*ssa.Return)
+				if !ok {
+					continue
+				}
+				for _, rv := range ret.Results {
+					if c2, ok := stripConv(rv).(*ssa.Call); ok && c2.Call.IsInvoke() && c2.Call.Method.Name() == f.Name() {
+						bad = c2.Call.Method.Name()
+						badPos = c2.Pos()
+					}
+				}
+			}
+			if bad != "" {
+				res.Bad(key, p.Pos(badPos), "after the trap has answered (ok == true) control reaches `return target.self."+bad+"(..)`: the target's own operation runs a second time; through two proxy layers the inner trap is invoked twice")
+			} else {
+				res.OK(key, p.Pos(call.Pos()), "no return on the ok-true side invokes the same operation on the target")
+			}
+		}
+	}
+	res.Count("trap consultations in proxyObject methods", nTrap)
+	// (b)
+	tpd, err := p.GojaMethod("Runtime", "toPropertyDescriptor")
+	if err != nil {
+		return res.Fail(err)
+	}
+	tvp, err := p.GojaMethod("Runtime", "toValueProp")
+	if err != nil {
+		return res.Fail(err)
+	}
+	nConv := 0
+	for _, f := range p.Funcs {
+		if !p.InModule(f) {
+			continue
+		}
+		a := core.CallsIn(f, tpd)
+		if len(a) == 0 {
+			continue
+		}
+		nConv += len(a)
+		key := core.FuncName(f) + ":a descriptor object is read by one conversion"
+		dup := false
+		var pos token.Pos
+		for _, c1 := range a {
+			args1 := c1.Common().Args
+			for _, c2 := range core.CallsIn(f, tvp) {
+				args2 := c2.Common().Args
+				if stripConv(args1[len(args1)-1]) == stripConv(args2[len(args2)-1]) {
+					dup = true
+					pos = c2.Pos()
+				}
+			}
+		}
+		if dup {
+			res.Bad(key, p.Pos(pos), "the same object is converted by toPropertyDescriptor and again by toValueProp: its getters run twice, the invariants are checked on the first reading and the answer is built from the second (a non-configurable target property is reported configurable with no TypeError)")
+		} else {
+			res.OK(key, p.Pos(a[0].Pos()), "converted once")
+		}
+	}
+	res.Count("toPropertyDescriptor calls", nConv)
+	// (c) FromPropertyDescriptor makes a fresh object: what (*PropertyDescriptor).toValue returns is the
+	// constant undefined or an object made in the function, never something loaded from the descriptor -
+	// a defineProperty trap that received the caller's own descriptor object (and forwarded it) made its
+	// getters run a second time, so the property defined through the proxy differed from the direct one.
+	if tv, err := p.GojaMethod("PropertyDescriptor", "toValue"); err != nil {
+		res.Fail(err)
+	} else {
+		key := "(*PropertyDescriptor).toValue:the descriptor object handed to a trap is a fresh object"
+		bad := ""
+		var pos token.Pos
+		nRet := 0
+		core.AllInstrs(tv, func(in ssa.Instruction) {
+			ret, ok := in.(*ssa.Return)
+			if !ok || len(ret.Results) != 1 {
+				return
+			}
+			nRet++
+			for _, leaf := range phiLeaves(ret.Results[0]) {
+				switch x := stripConv(leaf).(type) {
+				case *ssa.Call:
+					if c := x.Call.StaticCallee(); c != nil && c.Name() == "NewObject" {
+						continue
+					}
+					bad, pos = "the result of "+x.Call.String(), x.Pos()
+				case *ssa.UnOp:
+					if _, ok := x.X.(*ssa.Global); ok {
+						continue
+					}
+					bad, pos = "a value loaded from the descriptor", x.Pos()
+				case *ssa.Const:
+				default:
+					bad, pos = leaf.String(), leaf.Pos()
+				}
+			}
+		})
+		if nRet == 0 {
+			res.Unknown(key, p.Pos(tv.Pos()), "no return found")
+		} else if bad != "" {
+			res.Bad(key, p.Pos(pos), "toValue returns "+bad+": the trap gets an object that is not fresh (the caller's descriptor object, whose getters the forwarding Reflect.defineProperty runs again)")
+		} else {
+			res.OK(key, p.Pos(tv.Pos()), fmt.Sprintf("%d returns: undefined or an object made here", nRet))
+		}
+	}
+	return res
+}, Doc: "a trapped proxy operation is not repeated on the target after the trap answered, and a trap's descriptor object is read once"}
